@@ -1,0 +1,61 @@
+//go:build verif
+
+// Package verifhook holds observation points for external runtime monitors. This is the
+// instrumented variant, selected by the "verif" build tag.
+package verifhook
+
+import "sync/atomic"
+
+// Enabled reports whether the hooks are compiled in.
+const Enabled = true
+
+// Handler receives the events. Any field may be nil.
+type Handler struct {
+	Point  func(name string)
+	Dec    func(nodeType, point string, text string, cursor, cursorAtNewLine int)
+	Space  func(nodeType, position string, space, newlines, cursor int)
+	Attach func(text, nodeType, point string)
+}
+
+var handler atomic.Value // *Handler
+
+// Set installs h (nil removes the handler).
+func Set(h *Handler) {
+	if h == nil {
+		h = &Handler{}
+	}
+	handler.Store(h)
+}
+
+func get() *Handler {
+	h, _ := handler.Load().(*Handler)
+	return h
+}
+
+// Point marks a named location in the code.
+func Point(name string) {
+	if h := get(); h != nil && h.Point != nil {
+		h.Point(name)
+	}
+}
+
+// Dec reports one decoration being applied by the restorer.
+func Dec(nodeType, point string, text string, cursor, cursorAtNewLine int) {
+	if h := get(); h != nil && h.Dec != nil {
+		h.Dec(nodeType, point, text, cursor, cursorAtNewLine)
+	}
+}
+
+// Space reports a Before / After spacing being applied by the restorer.
+func Space(nodeType, position string, space, newlines, cursor int) {
+	if h := get(); h != nil && h.Space != nil {
+		h.Space(nodeType, position, space, newlines, cursor)
+	}
+}
+
+// Attach reports a comment or newline fragment being attached to a decoration point by the decorator.
+func Attach(text, nodeType, point string) {
+	if h := get(); h != nil && h.Attach != nil {
+		h.Attach(text, nodeType, point)
+	}
+}
